@@ -72,14 +72,21 @@ Definition LSTSQ (c : lstsq_cfg) (A b : mat) : option mat :=
   if has_nan sol then None          (* AssertionError *)
   else Some (strip sol).
 
-(* ---- Cholesky.forward:
-        L, info = cholesky_ex(A, upper); assert not any(isnan(L)); return b.cholesky_solve(L, upper)
-        [info] is bound and never read. ---- *)
+(* ---- Cholesky.forward (after the repair, /repo 50a1217):
+        L, info = cholesky_ex(A, upper)
+        assert not any(isnan(L)) and not any(info != 0)
+        return b.cholesky_solve(L, upper) ---- *)
 Variable cholesky_ex : bool -> mat (F:=F) -> xmat * Z.
 Variable cholesky_solve : bool -> mat (F:=F) -> mat (F:=F) -> xmat.   (* upper, b, L *)
 Definition Cholesky (upper : bool) (A b : mat) : option xmat :=
   let '(L, info) := cholesky_ex upper A in
-  if has_nan L then None            (* AssertionError *)
+  if has_nan L || negb (info =? 0)%Z then None            (* AssertionError *)
+  else Some (cholesky_solve upper b (strip L)).
+(* the wrapper before the repair (history: the _refuted theorems are about this one):
+        assert not any(isnan(L))     -- [info] was bound and never read *)
+Definition Cholesky_old (upper : bool) (A b : mat) : option xmat :=
+  let '(L, info) := cholesky_ex upper A in
+  if has_nan L then None
   else Some (cholesky_solve upper b (strip L)).
 
 (* ---- batched calls: the torch routines act on every matrix of the batch independently; the
@@ -92,7 +99,7 @@ Definition LSTSQ_batch c (As bs : list mat) : option (list mat) :=
   if existsb has_nan sols then None else Some (map strip sols).
 Definition Cholesky_batch upper (As bs : list mat) : option (list xmat) :=
   let Ls := map (cholesky_ex upper) As in
-  if existsb (fun Li => has_nan (fst Li)) Ls then None
+  if existsb (fun Li => has_nan (fst Li)) Ls || existsb (fun Li => negb (snd Li =? 0)%Z) Ls then None
   else Some (map2 (fun b Li => cholesky_solve upper b (strip (fst Li))) bs Ls).
 End Direct.
 
